@@ -117,16 +117,17 @@ class Env:
         self._built = {}
         self._fragment = {}
 
-    def build(self, ast):
-        """The real object of a source AST, built once per process (forml exceptions escape)."""
-        sig = self.g.signature(ast)
+    def build(self, ast, rename=None):
+        """The real object of a source AST, built once per process (forml exceptions escape).  ``rename``: references of
+        the AST that get the name of another one (dslgen.shared_names)."""
+        sig = (self.g.signature(ast), tuple(sorted((rename or {}).items())))
         if sig not in self._built:
-            self._built[sig] = self.g.build(ast)
+            self._built[sig] = self.g.build(ast, rename=rename)
         return self._built[sig]
 
-    def in_fragment(self, ast, statement):
+    def in_fragment(self, ast, statement, rename=None):
         """Whether the stock parser translates the statement when the whole catalog is provided."""
-        sig = self.g.signature(ast)
+        sig = (self.g.signature(ast), tuple(sorted((rename or {}).items())))
         if sig not in self._fragment:
             self._fragment[sig] = parse_with(self, self.tables, statement)[0] == 'ok'
         return self._fragment[sig]
@@ -187,7 +188,8 @@ class Case:
         self.ctx, self.env = ctx, env
         self.spec = spec
         self.asts = [g.norm(a) for a in spec['statements']]
-        self.statements = [env.build(a) for a in self.asts]
+        self.rename = spec.get('rename') or None
+        self.statements = [env.build(a, self.rename) for a in self.asts]
         self.insitu = {}  # signature -> real object that is part of one of the statements
         for ast, statement in zip(self.asts, self.statements):
             for path, node in lib.source_nodes(ast):
@@ -205,7 +207,7 @@ class Case:
         for ast in map(g.norm, feed['adverts']):
             sig = g.signature(ast)
             try:
-                obj = env.build(ast)
+                obj = env.build(ast, self.rename)
             except Exception:  # pylint: disable=broad-except
                 ctx.count('adverts_unbuildable')
                 continue
@@ -367,7 +369,7 @@ def run_case(ctx, env, spec):
                 for name in lib.via(cover[selected][1]).split('+'):
                     ctx.count(f'selected_via_{name}')
         # ---------------- parse monitors
-        if not env.in_fragment(ast, statement):
+        if not env.in_fragment(ast, statement, spec.get('rename')):
             ctx.count('parser_fragment_skipped')
             continue
         if selected is not None:
@@ -459,7 +461,19 @@ def directed_cases(g):
                  for i, (p, a, extra) in enumerate(feeds)]
         return {'feeds': specs, 'order': order or list(range(len(specs)))[::-1]}
 
+    ref_b = g.reference(g.table('B'), 'r1')
+    two_refs = g.setop(g.query(ref_a, [col('r0', 'x')]), g.query(ref_b, [col('r1', 'x')]), 'union')
+    inner_a = g.reference(g.query(g.reference(g.table('A'), 't0'), [col('t0', 'x')]), 'q1')
+    inner_b = g.reference(g.query(g.reference(g.table('B'), 't1'), [col('t1', 'x'), col('t1', 'w')]), 'q2')
+    two_inner = g.query(g.join(inner_a, inner_b, 'inner', g.cmp('==', col('q1', 'x'), col('q2', 'x'))), [col('q1', 'x'), col('q2', 'w')])
     return {
+        # two different references under one name in separate scopes; the preferred feed knows only the first one's table
+        'same-named-references-union': {'statements': [two_refs], 'rename': {'r1': 'r0'},
+                                        'pool': pool((10.0, [g.table('A')], {}), (1.0, tables, {}))},
+        'same-named-references-union-other': {'statements': [two_refs], 'rename': {'r1': 'r0'},
+                                              'pool': pool((10.0, [g.table('B')], {}), (1.0, tables, {}))},
+        'same-named-inner-aliases': {'statements': [two_inner], 'rename': {'t1': 't0'},
+                                     'pool': pool((10.0, [g.table('A')], {}), (1.0, tables, {}))},
         'join-only': {'statements': [over_join], 'pool': pool((10.0, [jab], {}), (1.0, tables, {}))},
         'join-and-tables': {'statements': [over_join], 'pool': pool((10.0, [jab] + tables, {}), (1.0, tables, {}))},
         'bare-join-only': {'statements': [jab], 'pool': pool((10.0, [jab], {}))},
@@ -521,6 +535,12 @@ def run(ctx):
             if previous is not None and rng.random() < 0.5 and g.signature(previous) != g.signature(ast):
                 chosen.append(previous)
             spec = {'statements': chosen, 'pool': lib.make_pool(rng, chosen)}
+            if len(chosen) == 1 and rng.random() < 0.6:
+                # two different references that are never visible together get one name (legal: separate scopes)
+                rename = g.shared_names(ast)
+                if rename:
+                    ctx.count('shared_reference_name_cases')
+                    spec['rename'] = rename
             run_case(ctx, env, spec)
             if index % 97 == 0:
                 ctx.sample({'statement': g.signature(ast)[:300],
@@ -532,6 +552,8 @@ def run(ctx):
 def replay(ctx, witness):
     env = Env()
     spec = {'statements': env.g.norm(witness['statements']), 'pool': witness['pool']}
+    if witness.get('rename'):
+        spec['rename'] = dict(witness['rename'])
     for feed in spec['pool']['feeds']:
         feed['adverts'] = [env.g.norm(a) for a in feed['adverts']]
     run_case(ctx, env, spec)
